@@ -165,7 +165,13 @@ namespace awkward {
   void
   ToJsonString::complex(std::complex<double> x) {
     if (complex_real_string_ != nullptr  &&  complex_imag_string_ != nullptr) {
-      impl_->complex(x, complex_real_string_, complex_imag_string_);
+      // through this class's real(), so that non-finite parts use the chosen strings
+      beginrecord();
+      field(complex_real_string_);
+      real(x.real());
+      field(complex_imag_string_);
+      real(x.imag());
+      endrecord();
     }
     else {
       throw std::invalid_argument(
@@ -306,7 +312,13 @@ namespace awkward {
   void
   ToJsonPrettyString::complex(std::complex<double> x) {
     if (complex_real_string_ != nullptr  &&  complex_imag_string_ != nullptr) {
-      impl_->complex(x, complex_real_string_, complex_imag_string_);
+      // through this class's real(), so that non-finite parts use the chosen strings
+      beginrecord();
+      field(complex_real_string_);
+      real(x.real());
+      field(complex_imag_string_);
+      real(x.imag());
+      endrecord();
     }
     else {
       throw std::invalid_argument(
@@ -451,7 +463,13 @@ namespace awkward {
   void
   ToJsonFile::complex(std::complex<double> x) {
     if (complex_real_string_ != nullptr  &&  complex_imag_string_ != nullptr) {
-      impl_->complex(x, complex_real_string_, complex_imag_string_);
+      // through this class's real(), so that non-finite parts use the chosen strings
+      beginrecord();
+      field(complex_real_string_);
+      real(x.real());
+      field(complex_imag_string_);
+      real(x.imag());
+      endrecord();
     }
     else {
       throw std::invalid_argument(
@@ -593,7 +611,13 @@ namespace awkward {
   void
   ToJsonPrettyFile::complex(std::complex<double> x) {
     if (complex_real_string_ != nullptr  &&  complex_imag_string_ != nullptr) {
-      impl_->complex(x, complex_real_string_, complex_imag_string_);
+      // through this class's real(), so that non-finite parts use the chosen strings
+      beginrecord();
+      field(complex_real_string_);
+      real(x.real());
+      field(complex_imag_string_);
+      real(x.imag());
+      endrecord();
     }
     else {
       throw std::invalid_argument(
